@@ -916,6 +916,22 @@ func runCertificates(c *core.Ctx) []genCert {
 		derName := defineDER(gc.der)
 		emitEnvelope(c, "envelope", derName, gc.der, y)
 		emitFields(c, "fields", derName, gc.der, y)
+		// the same certificate with a negative serial number (legal DER; recent crypto/x509 refuses it, so only the
+		// model is consulted): when the lenient parser accepts it, the serial it reports is the negative integer
+		if gi%3 == 0 {
+			if nd, ok := core.NegativeSerialDER(gc.der); ok {
+				y5, y5err, p, msg := parseY(nd)
+				switch {
+				case p:
+					c.Native("panic in yubiattest.ParseCertificate (negative serial number): "+msg, hex.EncodeToString(nd))
+				case y5err != nil:
+					c.Stat("negative-serial-refused")
+				default:
+					c.Stat("negative-serial-accepted")
+					emitFields(c, "fields-negative-serial", defineDER(nd), nd, y5)
+				}
+			}
+		}
 		// the same certificate carrying issuer / subject unique identifiers (legal, rarely used): everything else,
 		// the extension list included, is reported as before
 		for ui, ids := range [][2][]byte{{{1, 2, 3}, nil}, {nil, {9}}, {{0xaa}, {0xbb, 0xcc}}} {
